@@ -101,11 +101,14 @@ theorem mkIntervals_spec (seq : Array Compress.Base) (score : Compress.Seq → N
     `2k - p ≤ 65535` (the guard forced by the `u16` length field, finding D7), the scan returns
     intervals that satisfy every clause of the property. -/
 theorem C07_scan_valid (seq : Array Compress.Base) (score : Compress.Seq → Nat) (k p : Nat)
-    (h₁ : 1 ≤ p) (h₂ : p ≤ k) (h₃ : k ≤ seq.size) (h₄ : seq.size < 2 ^ 32) (h₅ : 2 * k - p ≤ 65535) :
+    (h₁ : 1 ≤ p) (h₂ : p ≤ k) (h₃ : k ≤ seq.size) (h₄ : seq.size < 2 ^ 32) (h₅ : 2 * k - p ≤ 65535)
+    (h₆ : ∀ w, score w < 2 ^ 64) :
     ∃ ivs, scan seq score k p = some ivs ∧ HoldsC07 seq score k p ivs := by
   unfold scan
   have h₄' : seq.size < 2 ^ Gen.mspMaxLenLog := h₄
-  simp only [h₃, h₄', h₂, and_self, if_true]
+  have hsc : (fun q => score (window seq p q) % 2 ^ Gen.mspScoreBits) = fun q => score (window seq p q) := by
+    funext q; exact Nat.mod_eq_of_lt (h₆ _)
+  simp only [h₃, h₄', h₂, and_self, if_true, hsc]
   refine ⟨_, rfl, ?_⟩
   have hf := minPositions_fwd (fun q => score (window seq p q)) (k - p) (seq.size - k + 1) (by omega)
   have := mkIntervals_spec seq score k p seq.size (seq.size - k + 1) h₁ h₂ (by omega) (by omega) h₄ h₅ _ hf.1
@@ -113,9 +116,10 @@ theorem C07_scan_valid (seq : Array Compress.Base) (score : Compress.Seq → Nat
 
 /-- the Bool form that the driver evaluates -/
 theorem C07_scan_holds (seq : Array Compress.Base) (score : Compress.Seq → Nat) (k p : Nat)
-    (h₁ : 1 ≤ p) (h₂ : p ≤ k) (h₃ : k ≤ seq.size) (h₄ : seq.size < 2 ^ 32) (h₅ : 2 * k - p ≤ 65535) :
+    (h₁ : 1 ≤ p) (h₂ : p ≤ k) (h₃ : k ≤ seq.size) (h₄ : seq.size < 2 ^ 32) (h₅ : 2 * k - p ≤ 65535)
+    (h₆ : ∀ w, score w < 2 ^ 64) :
     ∃ ivs, scan seq score k p = some ivs ∧ holdsC07 seq score k p ivs = true := by
-  obtain ⟨ivs, h, hh⟩ := C07_scan_valid seq score k p h₁ h₂ h₃ h₄ h₅
+  obtain ⟨ivs, h, hh⟩ := C07_scan_valid seq score k p h₁ h₂ h₃ h₄ h₅ h₆
   exact ⟨ivs, h, by simp [holdsC07, hh]⟩
 
 /-- the assertions of `scan` are exactly the guard: outside it the scan refuses -/
@@ -169,9 +173,10 @@ theorem starts_tile (sc : Nat → Nat) (k p m : Nat) (hk : 1 ≤ k) :
 
 /-- Corollary of C07: the k-mer starts covered by the intervals are exactly `0, 1, …, m-k`, each once. -/
 theorem C07_every_kmer_once (seq : Array Compress.Base) (score : Compress.Seq → Nat) (k p : Nat)
-    (h₁ : 1 ≤ p) (h₂ : p ≤ k) (h₃ : k ≤ seq.size) (h₄ : seq.size < 2 ^ 32) (h₅ : 2 * k - p ≤ 65535) :
+    (h₁ : 1 ≤ p) (h₂ : p ≤ k) (h₃ : k ≤ seq.size) (h₄ : seq.size < 2 ^ 32) (h₅ : 2 * k - p ≤ 65535)
+    (h₆ : ∀ w, score w < 2 ^ 64) :
     ∃ ivs, scan seq score k p = some ivs ∧ kmerStarts k ivs = List.range (seq.size - k + 1) := by
-  obtain ⟨ivs, h, hh⟩ := C07_scan_valid seq score k p h₁ h₂ h₃ h₄ h₅
+  obtain ⟨ivs, h, hh⟩ := C07_scan_valid seq score k p h₁ h₂ h₃ h₄ h₅ h₆
   refine ⟨ivs, h, ?_⟩
   have := starts_tile _ k p seq.size (by omega) ivs 0 hh.2.2 (fun iv hiv => (hh.2.1 iv hiv).1) hh.1
   rw [this, List.range_eq_range']; rfl
